@@ -183,7 +183,10 @@ def native_sequences(chk):
         os.makedirs(os.path.join(root, 'sub'))
         t = dl.file_text(names, 1)
         tw = twin(t)
-        for nm, content in (('Main.sol', t), ('Aaa.sol', tw), ('Zzz.sol', tw), ('sub/Mid.sol', tw), ('sub/Main2.sol', t)):
+        os.makedirs(os.path.join(root, 'other'))
+        shifted = '\n\n' + t                         # same findings two lines further down: same base name, other line set
+        for nm, content in (('Main.sol', t), ('Aaa.sol', tw), ('Zzz.sol', tw), ('sub/Mid.sol', tw), ('sub/Main2.sol', t),
+                            ('sub/Main.sol', shifted), ('other/Main.sol', t)):
             open(os.path.join(root, nm), 'w').write(content)
         got, want, raw = dl.native_union(chk, cat, root, names)
         fwd = chk.native.run([['analyze_dir', cat, root, ','.join(names)], ['analyze_dir', cat, root, ','.join(reversed(names))]])
@@ -204,7 +207,9 @@ def dir_model(chk, cat):
     pats = [p for p, _ in dl.CATS[cat]['patterns']]
     base_ents = [('file', 'Main.sol', 'main')]
     variants = [base_ents, [('file', 'A.sol', 'a')] + base_ents, base_ents + [('dir', 'd', [('file', 'B.sol', 'b')])],
-                [('dir', 'd', base_ents), ('file', 'C.sol', 'c')]]
+                [('dir', 'd', base_ents), ('file', 'C.sol', 'c')],
+                base_ents + [('dir', 'd', [('file', 'Main.sol', 'same1')])],                      # same base name below
+                [('dir', 'core', base_ents), ('dir', 'periphery', [('file', 'Main.sol', 'same2')])]]   # same base name beside
     seen = set()
     for ents in variants:
         for order in itertools.permutations(pats[:2]):
